@@ -538,6 +538,8 @@ class Configuration(_Configuration):
         self._cleanup_sections()
 
     def _commit_reload(self) -> None:
+        # only now may the routes of the file reach the RIBs of the running sessions
+        self.neighbor.activate()
         self.neighbors = self.neighbor.neighbors
         # Process change detection is handled in Processes.start() which compares
         # old vs new config and only restarts processes that actually changed.
